@@ -203,6 +203,24 @@ def judge (_id : String) (lines : Array String) : Verdict := Id.run do
       else return .specfail "no-data-race" s!"the Go race detector reported {races} data race(s) in {k} real-task cases (stderr of the check)"
     | _ => return .mismatch s!"the race-detector run could not be made: {obs}"
   let [_, chainT, stopT, clsT, nT] := opT | return .badop l
+  -- fork topologies (`prefix;branch;branch`): the model is a chain, so these cases are judged by the SPEC ORACLE
+  -- ONLY (the property on the observed outcome); there is no model prediction for them
+  if chainT.contains ';' then
+    match obs with
+    | ["panic"] => return .specfail "no-crash" "the real code panicked (the harness child process died) on a fork topology"
+    | [accT, stopres, censusT, outsT, _lateT, nodeErrT] =>
+      let some acc := accT.toNat? | return .badop l
+      let some census := censusT.toNat? | return .badop l
+      let some outs := parseOuts outsT | return .badop l
+      let outcome : Outcome :=
+        { accepted := acc, returned := stopres == "ok" || stopres == "err", leaked := census,
+          delivered := outs.map (fun o => acc - o.missing), nodeFailed := nodeErrT == "1" }
+      match failingClause outcome with
+      | some clause => return .specfail clause s!"fork topology: observed acc={acc} stop={stopres} census={census} outs={outsT} nodeerr={nodeErrT}"
+      | none =>
+        if outs.any (fun o => o.total != o.distinct) then return .mismatch s!"fork topology: an output was handed a point twice: {outsT}"
+        return .ok true (["fork-spec-only", clsT, stopT] ++ (if nodeErrT == "1" then ["fork-branch-failed"] else ["fork-healthy"]))
+    | _ => return .mismatch s!"the harness could not run the fork case: {l}"
   let some toks := (chainT.splitOn ",").mapM parseNode | return .badop l
   let some stop := parseStop stopT | return .badop l
   let some cls := parseClass clsT | return .badop l
